@@ -518,6 +518,8 @@ class Folder:
             seqs = args if f.name == "itertools.chain" else (list(args[0]) if args and isinstance(args[0], (list, tuple)) else None)
             if seqs is not None and all(isinstance(a, (list, tuple, dict)) for a in seqs):
                 return [x for a in seqs for x in a]  # the concatenation, as a list (a folded loop only iterates it)
+        if isinstance(f, ExtVal) and not f.called and f.name in ("typing.cast", "t.cast") and len(args) == 2 and not kwargs:
+            return args[1]  # cast(T, v) is v
         if isinstance(f, ExtVal):
             if f.name == "collections.OrderedDict" and not f.called and not any(is_unknown(a) or isinstance(a, ExtVal) for a in list(args) + list(kwargs.values())):
                 try:  # an insertion-ordered mapping: the folder's dict is one
